@@ -37,9 +37,39 @@ def printBack (r : R Back) : String :=
   | .unmodelled => "back=unmodelled"
   | .ok b => s!"back=ok seq={b.seq} w=" ++ " / ".intercalate (b.seqs.map fun f => " ".intercalate (f.map printMsg))
 
+/-- C19 on the implementation's answer to a `csvtext` operation: within `CsvUnambiguous` (and text-comparable) the
+conversion must not panic or fail, the sequences must be as many as the files and the messages written back the expected ones -/
+def propCsvText (o : Opts) (files : List (List Message)) (impl : String) : String :=
+  if !csvUnambiguousB o files || !comparable o.raw o.degrees files then "n/a" else
+  if impl.startsWith "panic" then "fail:panic" else
+  if impl.startsWith "csv=err" || impl.startsWith "pre=" then "fail:convert-error" else
+  if field? impl "back" != some "ok" then "fail:convert-error" else
+  if field? impl "seq" != some (toString files.length) then "fail:sequences" else
+  match impl.splitOn " w=" with
+  | [_, w] =>
+    match (splitFiles ((w.splitOn " ").filter (· ≠ ""))).mapM (·.mapM parseMsg) with
+    | some back => if back == expected o files then "ok" else "fail:roundtrip"
+    | none => "fail:unparsable"
+  | _ => "fail:unparsable"
+
+/-- KF-C19-7: a line of the CSV (before padding) of `scanLimit` = 65536 bytes or more, without the trim option -/
+def hasLongLine (o : Opts) (files : List (List Message)) : Bool :=
+  !o.trim && (toCsv o files).any fun l => (lineText tpDriver 0 l).length ≥ scanLimit
+
 /-- `csvtext o=<flags> <msgs>…`: the CSV text the model writes (header and Data lines, local message number 0) -/
 def hCsvText : Handler := fun r =>
   match r.mode with
+  | .prop | .kf =>
+    match r.args with
+    | o :: rest =>
+      match stripPrefix? o "o=", (splitFiles rest).mapM (·.mapM parseMsg) with
+      | some flags, some files =>
+        let has (c : Char) := flags.toList.contains c
+        let opts : Opts := { raw := has 'r', verbose := has 'v', degrees := has 'd', trim := has 't' }
+        if r.mode == .prop then propCsvText opts files r.impl
+        else if comparable opts.raw opts.degrees files && hasLongLine opts files then "KF-C19-7" else "-"
+      | _, _ => if r.mode == .kf then "-" else "n/a"
+    | [] => if r.mode == .kf then "-" else "n/a"
   | .model =>
     match r.args with
     | o :: rest =>
@@ -53,7 +83,6 @@ def hCsvText : Handler := fun r =>
         | some lines => showText lines ++ " " ++ printBack (fromCsvText (Arith.so.withText tpDriver) lines)
       | _, _ => "bad-op"
     | [] => "bad-op"
-  | .kf => "-"
   | _ => "n/a"
 
 /-- `csvparse <hex of a CSV text>`: what the reader makes of it -/
